@@ -48,6 +48,8 @@ def _methods_reading(repo, cls_ref: str, attr: str) -> set[str]:
 
 def run(chk) -> None:
     repo = chk.repo
+    from ._engine import engine_view
+    chk.extra["helpers_inlined"] = engine_view(repo)
     m = repo.module(CL)
 
     # ---------------------------------------------------------------- R1 drain to capacity
